@@ -28,6 +28,11 @@ inductive Op
   asset's book balance is left untouched. `fixed = true`: per-asset subtraction that rejects a non-positive remainder. -/
   | exitOut (fixed : Bool) (p : Nat) (d : String) (x : Int)
   | donate (p : Nat) (d : String) (x : Int)
+  /-- `OnCollectFee`: the collected fee is converted to the pool's fee denom by a swap on a cache context, applied FIRST to the
+  pool value in memory, whose asset slice the caller shares and saves afterwards. When the conversion then fails the cache context
+  is dropped; `fixed = false` (before 78eb247): the in-memory book keeps the swap (`+x` of the fee denom in, `−y` out) with no
+  transfer and no liquidity record; `fixed = true`: the in-memory balances are restored, nothing stays. -/
+  | failedConversion (fixed : Bool) (p : Nat) (dIn : String) (x : Int) (dOut : String) (y : Int)
 deriving Repr, Inhabited
 
 def tokenIn (s : St) (p : Nat) (d : String) (x : Int) : Except Err St :=
@@ -57,11 +62,15 @@ def donate (s : St) (p : Nat) (d : String) (x : Int) : Except Err St :=
   if x < 0 then .error .negative else
   .ok { s with held := s.held.add (p, d) x, donated := s.donated.add (p, d) x }
 
+def failedConversion (fixed : Bool) (s : St) (p : Nat) (dIn : String) (x : Int) (dOut : String) (y : Int) : Except Err St :=
+  if fixed then .ok s else .ok { s with book := (s.book.add (p, dIn) x).add (p, dOut) (-y) }
+
 def step (s : St) : Op → Except Err St
   | .tokenIn p d x => tokenIn s p d x
   | .tokenOut p d x => tokenOut s p d x
   | .exitOut f p d x => exitOut f s p d x
   | .donate p d x => donate s p d x
+  | .failedConversion f p dIn x dOut y => failedConversion f s p dIn x dOut y
 
 /-- a macro-op (message handler / blocker step) is a list of primitive ops executed atomically -/
 def runAtomic (s : St) (ops : List Op) : Except Err St := ops.foldlM step s
